@@ -94,9 +94,20 @@ def pool():
     return _POOL
 
 
+LOCAL = False   # inside a worker process: solve sequentially in-process
+
+
+class _Serial:
+    def map(self, fn, items, chunksize=1):
+        return [fn(x) for x in items]
+
+
 def discharge(vcs, timeout_ms=None, second_opinion=True, seeds=()):
     """returns list[Result] in the order of vcs"""
     timeout_ms = timeout_ms or TIMEOUT_MS
+    if LOCAL:
+        global pool
+        pool = lambda: _Serial()  # noqa
     texts = [(vc.name, vc.smt2(), timeout_ms if vc.expect == "unsat" else min(3000, timeout_ms), 0) for vc in vcs]
     results = {}
     for name, status, secs, backend, detail in pool().map(_solve_text, texts, chunksize=1):
